@@ -34,19 +34,50 @@ func harnessFiles() ([]string, error) {
 	return fs, err
 }
 
-// overlayMap maps virtual files in /repo to harness sources.
-func overlayMap(withTest bool) (map[string]string, error) {
+// overlayContents maps virtual files in /repo to their contents: every
+// harness file into the gmars package, and (for the command-line property)
+// the files of harness_main plus package-main copies of the intrinsics and
+// the replay driver into cmd/gmars.
+func overlayContents(withTest bool) (map[string][]byte, error) {
 	fs, err := harnessFiles()
 	if err != nil {
 		return nil, err
 	}
-	m := map[string]string{}
+	m := map[string][]byte{}
 	for _, f := range fs {
-		base := filepath.Base(f)
-		m[filepath.Join(RepoDir, "zz_verif_"+base)] = f
+		b, err := os.ReadFile(f)
+		if err != nil {
+			return nil, err
+		}
+		m[filepath.Join(RepoDir, "zz_verif_"+filepath.Base(f))] = b
+	}
+	driver, err := os.ReadFile(filepath.Join(VerifDir, "harness", "replay_test.go.txt"))
+	if err != nil {
+		return nil, err
 	}
 	if withTest {
-		m[filepath.Join(RepoDir, "zz_verif_replay_test.go")] = filepath.Join(VerifDir, "harness", "replay_test.go.txt")
+		m[filepath.Join(RepoDir, "zz_verif_replay_test.go")] = driver
+	}
+	// package main
+	mains, _ := filepath.Glob(filepath.Join(VerifDir, "harness_main", "*.go"))
+	sort.Strings(mains)
+	if len(mains) > 0 {
+		cmdDir := filepath.Join(RepoDir, "cmd", "gmars")
+		for _, f := range mains {
+			b, err := os.ReadFile(f)
+			if err != nil {
+				return nil, err
+			}
+			m[filepath.Join(cmdDir, "zz_verif_"+filepath.Base(f))] = b
+		}
+		rt, err := os.ReadFile(filepath.Join(VerifDir, "harness", "rt.go"))
+		if err != nil {
+			return nil, err
+		}
+		m[filepath.Join(cmdDir, "zz_verif_rt.go")] = []byte(strings.Replace(string(rt), "package gmars", "package main", 1))
+		if withTest {
+			m[filepath.Join(cmdDir, "zz_verif_replay_test.go")] = []byte(strings.Replace(string(driver), "package gmars", "package main", 1))
+		}
 	}
 	return m, nil
 }
@@ -72,17 +103,9 @@ type Program struct {
 // Load builds SSA for the gmars package (with harness overlay) from the
 // current working tree of /repo.
 func Load(withCmd bool) (*Program, error) {
-	om, err := overlayMap(false)
+	overlay, err := overlayContents(false)
 	if err != nil {
 		return nil, err
-	}
-	overlay := map[string][]byte{}
-	for virt, real := range om {
-		b, err := os.ReadFile(real)
-		if err != nil {
-			return nil, err
-		}
-		overlay[virt] = b
 	}
 	cfg := &packages.Config{
 		Mode:    packages.NeedName | packages.NeedFiles | packages.NeedCompiledGoFiles | packages.NeedImports | packages.NeedDeps | packages.NeedTypes | packages.NeedSyntax | packages.NeedTypesInfo | packages.NeedTypesSizes,
